@@ -525,16 +525,17 @@ func c16Judge(res *core.Result, work bool, op mOp, models []*mModel, pre *realFi
 	for _, r := range op.reqs {
 		requested[r.a] = true
 	}
+	// C16 says that the comments of kept lines survive; which of several existing lines for one path is
+	// the kept one is documented ("the first") and enforced by C08, not by C16: here any one of them may
+	// be the survivor, tried in list order so that the report names the first.
 	var paths []string
-	firsts := map[string][]mEntry{} // per kept path: the first line under each reading of "first"
+	firsts := map[string][]mEntry{}
 	for mi, model := range models {
-		seen := map[string]bool{}
 		for _, e := range model.entries {
-			if e.kind != kind || !requested[e.a] || seen[e.a] {
+			if e.kind != kind || !requested[e.a] {
 				continue
 			}
-			seen[e.a] = true
-			if mi == 0 {
+			if mi == 0 && len(firsts[e.a]) == 0 {
 				paths = append(paths, e.a)
 			}
 			firsts[e.a] = append(firsts[e.a], e)
